@@ -6,10 +6,8 @@ import Utcp.Lemmas.Frame
 S-level: the primitives as functions on bit lists (`Utcp/BitIO.lean`).  A failed read is modelled with the
 cursor position it leaves behind, so "leaves the cursor inside the valid range" is a statement about the
 remainder returned.  The byte-array level of `bit_buffer.c` (`|=`/`+=` on a zeroed buffer, the three phases
-of `appBitsCpy`) is *not* proved here: it is tied to these functions by the correspondence runs — every
-datagram the real code emits is compared byte for byte with `bitsToBytes` of the model's bits, and every
-datagram it parses is parsed by these readers — under ASan on exact-size heap buffers.  That part is
-testing, not proof, and is labelled so in the evidence.
+of `appBitsCpy`, the straddling packed store, partial memory) is the subject of the continuation file
+`Props/C12_Bytes.lean`, which proves that it refines the functions used here.
 -/
 namespace Utcp.Props.C12
 open Utcp
